@@ -17,7 +17,7 @@
    entries: 0 model line, 1 oracle on (case, implementation line), 2 pass A on (bytes),
             3 pass B on (bytes ((off size (bytes)) ...)), 4 the same with the lenient decoder. *)
 From BT Require Import Base.Util Base.Sexp Base.LE Base.Float Generated.Consts Model.RTree Model.BBIFile Model.BigWigWrite
-  Model.BigWigWriteZ Model.EntryBBI Spec.FormatDecode.
+  Model.BigWigWriteZ Model.EntryBBI Model.BigBedWrite Model.EntryBed Spec.FormatDecode.
 Local Open Scope N_scope.
 
 (* ---------- content <-> sexp ---------- *)
@@ -230,8 +230,38 @@ Definition bw_model (whole c : sexp) : sexp :=
   | Fuel => L [A 3%Z]
   end.
 
+(* bigBed: Model/BigBedWrite.v is the uncompressed image.  For a compressed case the expected content is
+   that of the uncompressed image with uncompressBufSize = the largest block of that image (the
+   generators use manual zoom lists with compression, so every computed level is written). *)
+Definition with_ubuf (c : content) (u : N) : content :=
+  {| c_bigwig := c_bigwig c; c_bigendian := c_bigendian c; c_field_count := c_field_count c; c_defined_fc := c_defined_fc c;
+     c_autosql := c_autosql c; c_ubuf := u; c_block_size := c_block_size c; c_ips := c_ips c; c_chroms := c_chroms c;
+     c_records := c_records c; c_blocks := c_blocks c; c_data_count := c_data_count c; c_summary := c_summary c;
+     c_zooms := c_zooms c |}.
+Definition bed_model9 (whole c : sexp) : sexp :=
+  let o := get_opts (nthS 1 c) in
+  match bed_write_model c with
+  | Ok bs =>
+      let fix_u (d : option content) :=
+        if o_compress o then
+          match d, block_ranges bs with
+          | Some ct, Some (_, rs) => Some (with_ubuf ct (fold_left N.max (map snd rs) 0))
+          | _, _ => None
+          end
+        else d in
+      let d := fix_u (decode bs (self_inflate bs)) in
+      L [A 0%Z; (if o_compress o then L [] else sBytes bs); A 1%Z; sDecoded d;
+         match d with
+         | Some _ => L []
+         | None => L [c09_oracle whole (L [A 0%Z; L []; A 1%Z; sDecoded (fix_u (decode_lenient bs (self_inflate bs)))])]
+         end]
+  | Err code => L [A 1%Z; sN code]
+  | Panic => L [A 2%Z]
+  | Fuel => L [A 3%Z]
+  end.
+
 Definition c09_model (c : sexp) : sexp :=
-  if getN (nthS 0 c) =? 0 then bw_model c (nthS 1 c) else L [A (-1)%Z].
+  if getN (nthS 0 c) =? 0 then bw_model c (nthS 1 c) else bed_model9 c (nthS 1 c).
 
 Definition dispatch (k : Z) (arg : sexp) : sexp :=
   match k with
